@@ -489,6 +489,16 @@ class Inotify:
         wd = inotify_add_watch(self._inotify_fd, path, mask)
         if wd == -1:
             Inotify._raise_error()
+        else:
+            old_path = self._path_for_wd.get(wd)
+            if old_path is not None and old_path != path:
+                # The kernel hands a watched inode its descriptor again: the directory is back under
+                # another path before its departure was dealt with. Forget the old path and the departure.
+                if self._wd_for_path.get(old_path) == wd:
+                    del self._wd_for_path[old_path]
+                for cookie, moved_wd in list(self._moved_from_wds.items()):
+                    if moved_wd == wd:
+                        del self._moved_from_wds[cookie]
         self._wd_for_path[path] = wd
         self._path_for_wd[wd] = path
         return wd
